@@ -64,8 +64,9 @@ func (g *GoFakeS3) routeBase(w http.ResponseWriter, r *http.Request) {
 		err = g.listBuckets(w, r)
 
 	} else {
-		http.NotFound(w, r)
-		return
+		// Only ListBuckets exists on the service root. Answer with an S3 error
+		// document like everywhere else (http.NotFound writes plain text):
+		err = ErrMethodNotAllowed
 	}
 
 	if err != nil {
